@@ -22,6 +22,7 @@ from .alpha import Snapshot, tree
 from .env import ENV, T0
 
 HORIZON = 600
+SOLO = 250
 
 
 class Abort(BaseException):
@@ -143,6 +144,8 @@ class Execution:
         self.pruned = False
         self.cut = None
         self.deadlock = False
+        self.livelock = None
+        self.solo = (None, 0)
         self.write_cons = set()
         self.con_owner = {}
         self.busy_answers = scenario.busy_answers  # {(cid, n): 'timeout'}
@@ -195,11 +198,20 @@ class Execution:
     def run_sql(self, con, sql, args):
         c = self.me()
         if c is None or self.abort:
-            return sqlite3.Connection.execute(con, sql, *args)
+            try:
+                return sqlite3.Connection.execute(con, sql, *args)
+            except sqlite3.OperationalError:
+                # the execution is over: a client that would now spin on a
+                # failing statement (retry loops do not sleep) is unwound
+                if c is not None and self.abort:
+                    raise Abort()
+                raise
         v = verb(sql)
         holder = id(con) in self.write_cons
         invisible = (self.por and holder and con.in_transaction
-                     and v not in ('COMMIT', 'ROLLBACK', 'END'))
+                     and v not in ('COMMIT', 'ROLLBACK', 'END')
+                     and not getattr(c, 'failed_stmt', False))
+        c.failed_stmt = False
         while True:
             if not invisible:
                 self.point(c, ('sql', v))
@@ -216,9 +228,14 @@ class Execution:
                     c.blocked = True
                     invisible = False
                     continue
+                # a statement after a failed one is always a scheduling
+                # point, so that a retry loop around a statement that can
+                # never succeed stays under the scheduler's control
+                c.failed_stmt = True
                 c.observe('sql', v, type(exc).__name__, str(exc))
                 raise
             except Exception as exc:
+                c.failed_stmt = True
                 c.observe('sql', v, type(exc).__name__, str(exc))
                 raise
             if v == 'BEGIN' and ('IMMEDIATE' in sql.upper()
@@ -394,6 +411,22 @@ class Execution:
                 if self.step >= HORIZON:
                     self.cut = 'horizon %d' % HORIZON
                     break
+                # livelock: for SOLO steps in a row one client was the only
+                # enabled one, stayed inside the same operation and no
+                # virtual time passed (a retry loop that can never succeed)
+                if len(en) == 1:
+                    mark = (en[0].cid, len(en[0].results), ENV.now)
+                    self.solo = (mark, self.solo[1] + 1) \
+                        if self.solo[0] == mark else (mark, 1)
+                    if self.solo[1] >= SOLO:
+                        self.livelock = (
+                            'client %d repeated %r %d times inside operation '
+                            '%d with nobody else enabled and the clock '
+                            'standing still' % (en[0].cid, en[0].pending,
+                                                SOLO, len(en[0].results)))
+                        break
+                else:
+                    self.solo = (None, 0)
                 order = sorted(en, key=lambda c: (c.cid != self.last, c.cid))
                 i = len(self.trace)
                 if i < len(self.prefix):
@@ -439,13 +472,19 @@ class Execution:
             for c in self.clients:
                 c.thread.join(10)
                 if c.thread.is_alive():
-                    raise RuntimeError('client %d did not stop' % c.cid)
+                    import sys
+                    import traceback
+                    fr = sys._current_frames().get(c.thread.ident)
+                    where = ''.join(traceback.format_stack(fr)[-6:]) \
+                        if fr is not None else ''
+                    raise RuntimeError('client %d did not stop; it is at\n%s'
+                                       % (c.cid, where))
             ENV.hook = None
         for c in self.clients:
             if c.error is not None:
                 raise c.error
         self.complete = (not self.pruned and not self.cut
-                         and not self.deadlock)
+                         and not self.deadlock and not self.livelock)
         return self
 
 
@@ -488,6 +527,8 @@ def explore(scenario_factory, bound=None, por=True, max_execs=None,
                 problems.append(('deadlock', 'no client enabled; states %r'
                                  % [(c.cid, c.state, c.blocked, c.pending)
                                     for c in ex.clients]))
+            if ex.livelock:
+                problems.append(('livelock', ex.livelock))
             if ex.complete:
                 part['complete'] += 1
                 problems += sc.check(ex)
